@@ -706,8 +706,22 @@ impl TransportManager {
         let address_record = AddressRecord::from_multiaddr(address)
             .ok_or(Error::AddressError(AddressError::PeerIdMissing))?;
 
-        if self.listen_addresses.read().contains(address_record.as_ref()) {
-            return Err(Error::TriedToDialSelf);
+        // The node's own listen address is refused under whatever peer ID it is given. Like
+        // `add_known_address`, compare the address without its `/p2p` suffix as well: otherwise the
+        // node would dial itself and remember its own listen address as an address of that peer.
+        {
+            let listen_addresses = self.listen_addresses.read();
+            let without_peer: Multiaddr = address_record
+                .as_ref()
+                .iter()
+                .take_while(|protocol| !std::matches!(protocol, Protocol::P2p(_)))
+                .collect();
+
+            if listen_addresses.contains(address_record.as_ref())
+                || listen_addresses.contains(&without_peer)
+            {
+                return Err(Error::TriedToDialSelf);
+            }
         }
 
         tracing::debug!(target: LOG_TARGET, address = ?address_record.address(), "dial address");
